@@ -1043,6 +1043,97 @@ def desugar(rec, prog, stats):
                 stats.setdefault(rec["path"], []).append("desugar:mem::replace")
                 changed = True
                 continue
+        if c == "core::option::Option::<T>::ok_or" and len(t["args"]) == 2 and not t["dest"]["proj"] and t["args"][0]["k"] in ("move", "copy") \
+                and not t["args"][0]["place"]["proj"] and rec.get("_okor_plain", 0) < 8:
+            # o.ok_or(e) (not followed by `?` in this function)  ->  match o { Some(v) => Ok(v), None => Err(e) }
+            ol = t["args"][0]["place"]["local"]
+            oty = rec["locals"][ol]
+            dty = rec["locals"][t["dest"]["local"]]
+            nxt = rec["blocks"][t["target"]]["term"] if t.get("target") is not None else {}
+            followed_by_try = nxt.get("k") == "call" and (nxt.get("resolved") or nxt.get("callee")) == TRY_BRANCH
+            if not followed_by_try and oty.get("k") == "adt" and oty.get("args") and dty.get("k") == "adt" and len(dty.get("args") or []) == 2:
+                line = t.get("line")
+                isz = {"k": "int", "bits": 64, "name": "isize"}
+                n = len(rec["locals"])
+                rec["locals"].append(isz)
+                nb = len(rec["blocks"])
+                blk["stmts"] = list(blk["stmts"]) + [{"k": "assign", "place": {"local": n, "proj": []}, "rv": {"k": "discr", "place": {"local": ol, "proj": []}}, "line": line}]
+                blk["term"] = {"k": "switch", "discr": {"k": "move", "place": {"local": n, "proj": []}}, "dty": isz, "arms": [[1, nb], [0, nb + 1]], "otherwise": nb + 2, "line": line}
+                rec["blocks"].append({"stmts": [{"k": "assign", "place": copy.deepcopy(t["dest"]),
+                                                 "rv": {"k": "aggregate", "agg": "adt", "path": "core::result::Result", "variant": 0, "vname": "Ok", "args": dty["args"], "is_enum": True,
+                                                        "ops": [{"k": "move", "place": {"local": ol, "proj": [{"k": "downcast", "variant": 1, "name": "Some"}, {"k": "field", "i": 0, "ty": oty["args"][0]}]}}]},
+                                                 "line": line}], "term": {"k": "goto", "target": t["target"]}})
+                rec["blocks"].append({"stmts": [{"k": "assign", "place": copy.deepcopy(t["dest"]),
+                                                 "rv": {"k": "aggregate", "agg": "adt", "path": "core::result::Result", "variant": 1, "vname": "Err", "args": dty["args"], "is_enum": True,
+                                                        "ops": [copy.deepcopy(t["args"][1])]}, "line": line}], "term": {"k": "goto", "target": t["target"]}})
+                rec["blocks"].append({"stmts": [], "term": {"k": "unreachable"}})
+                rec["_okor_plain"] = rec.get("_okor_plain", 0) + 1
+                stats.setdefault(rec["path"], []).append("desugar:ok_or")
+                changed = True
+                continue
+        if c == "core::result::Result::<T, E>::ok" and len(t["args"]) == 1 and not t["dest"]["proj"] and t["args"][0]["k"] in ("move", "copy") \
+                and not t["args"][0]["place"]["proj"]:
+            # r.ok()  ->  match r { Ok(v) => Some(v), Err(_) => None }
+            rl = t["args"][0]["place"]["local"]
+            rty = rec["locals"][rl]
+            dty = rec["locals"][t["dest"]["local"]]
+            if rty.get("k") == "adt" and len(rty.get("args") or []) == 2 and dty.get("k") == "adt" and dty.get("args"):
+                line = t.get("line")
+                isz = {"k": "int", "bits": 64, "name": "isize"}
+                n = len(rec["locals"])
+                rec["locals"].append(isz)
+                nb = len(rec["blocks"])
+                blk["stmts"] = list(blk["stmts"]) + [{"k": "assign", "place": {"local": n, "proj": []}, "rv": {"k": "discr", "place": {"local": rl, "proj": []}}, "line": line}]
+                blk["term"] = {"k": "switch", "discr": {"k": "move", "place": {"local": n, "proj": []}}, "dty": isz, "arms": [[0, nb], [1, nb + 1]], "otherwise": nb + 2, "line": line}
+                rec["blocks"].append({"stmts": [{"k": "assign", "place": copy.deepcopy(t["dest"]),
+                                                 "rv": {"k": "aggregate", "agg": "adt", "path": "core::option::Option", "variant": 1, "vname": "Some", "args": dty["args"], "is_enum": True,
+                                                        "ops": [{"k": "move", "place": {"local": rl, "proj": [{"k": "downcast", "variant": 0, "name": "Ok"}, {"k": "field", "i": 0, "ty": rty["args"][0]}]}}]},
+                                                 "line": line}], "term": {"k": "goto", "target": t["target"]}})
+                rec["blocks"].append({"stmts": [{"k": "assign", "place": copy.deepcopy(t["dest"]),
+                                                 "rv": {"k": "aggregate", "agg": "adt", "path": "core::option::Option", "variant": 0, "vname": "None", "args": dty["args"], "is_enum": True, "ops": []},
+                                                 "line": line}], "term": {"k": "goto", "target": t["target"]}})
+                rec["blocks"].append({"stmts": [], "term": {"k": "unreachable"}})
+                stats.setdefault(rec["path"], []).append("desugar:Result::ok")
+                changed = True
+                continue
+        if c == "core::option::Option::<T>::filter" and len(t["args"]) == 2 and not t["dest"]["proj"] \
+                and all(a_["k"] in ("move", "copy") and not a_["place"]["proj"] for a_ in t["args"]) \
+                and rec["locals"][t["args"][1]["place"]["local"]].get("k") == "closure":
+            # o.filter(p)  ->  match o { Some(v) => if p(&v) { Some(v) } else { None }, None => None }
+            ol, fl = t["args"][0]["place"]["local"], t["args"][1]["place"]["local"]
+            oty = rec["locals"][ol]
+            fty = rec["locals"][fl]
+            if oty.get("k") == "adt" and oty.get("args"):
+                pay = oty["args"][0]
+                refty = {"k": "ref", "mut": False, "to": pay}
+                line = t.get("line")
+                isz = {"k": "int", "bits": 64, "name": "isize"}
+                n = len(rec["locals"])
+                rec["locals"].extend([isz, pay, refty, {"k": "tuple", "elems": [refty]}, BOOL])
+                d, v, rf, tup, pr = range(n, n + 5)
+                nb = len(rec["blocks"])
+                SOME, TEST, KEEP, NONE, UNR = nb, nb + 1, nb + 2, nb + 3, nb + 4
+                blk["stmts"] = list(blk["stmts"]) + [{"k": "assign", "place": {"local": d, "proj": []}, "rv": {"k": "discr", "place": {"local": ol, "proj": []}}, "line": line}]
+                blk["term"] = {"k": "switch", "discr": {"k": "move", "place": {"local": d, "proj": []}}, "dty": isz, "arms": [[1, SOME], [0, NONE]], "otherwise": UNR, "line": line}
+                rec["blocks"].append({"stmts": [
+                    {"k": "assign", "place": {"local": v, "proj": []},
+                     "rv": {"k": "use", "op": {"k": "move", "place": {"local": ol, "proj": [{"k": "downcast", "variant": 1, "name": "Some"}, {"k": "field", "i": 0, "ty": pay}]}}}, "line": line},
+                    {"k": "assign", "place": {"local": rf, "proj": []}, "rv": {"k": "ref", "mut": False, "place": {"local": v, "proj": []}}, "line": line},
+                    {"k": "assign", "place": {"local": tup, "proj": []}, "rv": {"k": "aggregate", "agg": "tuple", "ops": [{"k": "move", "place": {"local": rf, "proj": []}}]}, "line": line}],
+                    "term": {"k": "call", "callee": "core::ops::FnOnce::call_once", "resolved": None, "cargs": [fty, {"k": "tuple", "elems": [refty]}], "rargs": [],
+                             "args": [{"k": "move", "place": {"local": fl, "proj": []}}, {"k": "move", "place": {"local": tup, "proj": []}}], "dest": {"local": pr, "proj": []},
+                             "target": TEST, "line": line}})
+                rec["blocks"].append({"stmts": [], "term": {"k": "switch", "discr": {"k": "move", "place": {"local": pr, "proj": []}}, "dty": BOOL, "arms": [[0, NONE]], "otherwise": KEEP, "line": line}})
+                rec["blocks"].append({"stmts": [{"k": "assign", "place": copy.deepcopy(t["dest"]),
+                                                 "rv": {"k": "aggregate", "agg": "adt", "path": "core::option::Option", "variant": 1, "vname": "Some", "args": oty["args"], "is_enum": True,
+                                                        "ops": [{"k": "move", "place": {"local": v, "proj": []}}]}, "line": line}], "term": {"k": "goto", "target": t["target"]}})
+                rec["blocks"].append({"stmts": [{"k": "assign", "place": copy.deepcopy(t["dest"]),
+                                                 "rv": {"k": "aggregate", "agg": "adt", "path": "core::option::Option", "variant": 0, "vname": "None", "args": oty["args"], "is_enum": True, "ops": []},
+                                                 "line": line}], "term": {"k": "goto", "target": t["target"]}})
+                rec["blocks"].append({"stmts": [], "term": {"k": "unreachable"}})
+                stats.setdefault(rec["path"], []).append("desugar:Option::filter")
+                changed = True
+                continue
         if c in ("core::result::Result::<T, E>::map_or", "core::option::Option::<T>::map_or") and len(t["args"]) == 3 \
                 and t["args"][0]["k"] in ("move", "copy") and not t["args"][0]["place"]["proj"] and not t["dest"]["proj"]:
             # r.map_or(d, f)  ->  match r { Ok(v) | Some(v) => f(v), _ => d }        (d is already evaluated: an operand)
